@@ -77,7 +77,7 @@ def long_digest(prop, tier, seed, res):
             ok += 1
             continue
         res.failures.append(dict(key=f"{prop} long-stream " + re.sub(r"\d+", "#", mine[0])[:200], what=f"case {cid}: " + "; ".join(mine[:3]), name=cid,
-                                 replay=dict(property=prop, kind="long", harness_args=args, case=cid, what=mine[:10])))
+                                 replay=dict(property=prop, kind="long", tier=tier, seed=seed, harness_args=args, case=cid, what=mine[:10])))
     res.coverage["very_long_streams"] = dict(streams=summ["cases"], accepted=ok, detail=summ["samples"],
                                              note="every frame's written length and reported size enters the judgement (run-length coded); "
                                                   "sampled frames (class boundaries, extremes, last, random) are parsed completely by TLC")
@@ -777,7 +777,7 @@ def builder_conformance(prop, tier, seed, res):
         mine = [m for m in msgs if m.startswith(prop + ":")]
         if mine:
             res.failures.append(dict(key=f"{prop} assembly-api " + re.sub(r"\d+", "#", mine[0])[:200], what=f"call sequence {cid}: " + "; ".join(mine[:3]), name=cid,
-                                     replay=dict(property=prop, kind="builder", harness_args=args, case=cid, what=mine[:10],
+                                     replay=dict(property=prop, kind="builder", tier=tier, seed=seed, harness_args=args, case=cid, what=mine[:10],
                                                  trace_lines=vlib.extract_case(summ["files"], cid))))
         elif v == "pass":
             ok += 1
@@ -1098,7 +1098,16 @@ def replay(prop, path):
         return check_c17(prop, payload.get("tier", "quick"), payload.get("seed", 1))
     if kind == "comp":
         r = Result()
-        run_comp(prop, payload.get("tier", "quick"), payload.get("seed", 1), [prop], r)
+        run_comp(prop, payload.get("tier", "quick"), payload.get("seed", 1), [prop, "C08"] if prop == "C18" else [prop], r)
+        return r
+    if kind in ("long", "builder"):
+        # re-drive the digest / the assembly-API call sequences on the current working tree
+        r = Result()
+        r.coverage = dict(states=0, transitions=0, traces_validated_against_impl=0, evaluations=0)
+        if kind == "long":
+            long_digest(prop, payload.get("tier", "quick"), payload.get("seed", 1), r)
+        else:
+            builder_conformance(prop, payload.get("tier", "quick"), payload.get("seed", 1), r)
         return r
     if kind == "cfg07":
         return check_c07(prop, payload.get("tier", "quick"), payload.get("seed", 1))
